@@ -530,7 +530,8 @@ def check_event_writers(rep, prog):
         # the same walk written as an enumeration of the (dest, source) pairs in destination-major order without the diagonal
         from sa.pattern import has as _has
         t_ = ast.unparse(out)
-        okr = _has(t_, "pairs = [(dest, source) for dest in e.deme_ids for source in e.deme_ids if not dest == source]") and \
+        okr = (_has(t_, "pairs = [(dest, source) for dest in e.deme_ids for source in e.deme_ids if not dest == source]") or
+               _has(t_, "pairs = [(dest, source) for dest in e.deme_ids for source in e.deme_ids if dest != source]")) and \
             _has(t_, "for m_ii, (dest, source) in enumerate(pairs):\n    if e.mig[m_ii] != 0:\n        all_migs.append({'rate': e.mig[m_ii], 'source': source, 'dest': dest, 'start_time': start_time, 'end_time': e.end_time})")
     found_decode = okr or any(isinstance(n, ast.For) and 'e.deme_ids' in ast.unparse(n.iter) and 'm_ii' in ast.unparse(n) for n in own_nodes(out))
     rep.ob('R-TPL', 'Demes.output migration decode', okr, 'for dest: for source != dest: rate = e.mig[m_ii]; m_ii += 1' + ('' if found_decode else ' (walk over the rates not found)'), dm.rel, out.lineno,
